@@ -1,11 +1,15 @@
 # -*- coding: utf-8 -*-
-"""Simulated disk at the raw-file level.
+"""Simulated disk: a fault-injecting proxy over a private real directory.
 
 The library's ``open`` (module global of midi_file_out / midi_file_in) is
 replaced by SimDisk.open, which hands back the *real* stdlib buffered object
-(io.BufferedWriter / io.BufferedReader) over a SimRawFile whose write/readinto
-follow the run's fault plan.  What the properties talk about is the byte store
-of the inode after close.
+(io.BufferedWriter / io.BufferedReader / io.BufferedRandom) over a SimRawFile
+whose write/readinto follow the run's fault plan and then act on a real file
+inside a per-run sandbox directory (the run's working directory).  Because the
+bytes live in real files, code under test that also consults the file system
+(os.path.exists, os.replace of a temporary file, os.remove, getsize ...) sees a
+consistent world, and what the properties talk about is simply the content of
+the real file after the call.
 
 Fault plans (plain JSON):
   {"kind": "short", "sizes": [3, 1, 7]}        raw writes/reads accept at most sizes[i % n] bytes (legal POSIX)
@@ -15,52 +19,60 @@ from __future__ import annotations
 
 import errno as _errno
 import io
+import os
+import shutil
+import tempfile
 
 from .kernel import SimBudgetExceeded
 
 RAW_CALL_CAP = 200000
 
 
+def _sandbox_parent():
+    for d in ("/dev/shm", tempfile.gettempdir()):
+        if os.path.isdir(d) and os.access(d, os.W_OK):
+            return d
+    return tempfile.gettempdir()
+
+
 class SimRawFile(io.RawIOBase):
-    def __init__(self, disk, path, mode, plan):
+    def __init__(self, disk, path, real, mode, plan):
         io.RawIOBase.__init__(self)
         self.disk = disk
         self.path = path
         self.mode = mode
         self.plan = plan or None
-        self.pos = 0
         self.calls = 0
-        if "a" in mode:
-            self.pos = len(disk.files[path])
+        self.f = io.FileIO(real, mode.replace("b", ""))
         self.name = path
 
     def readable(self):
-        return "r" in self.mode or "+" in self.mode
+        return self.f.readable()
 
     def writable(self):
-        return "w" in self.mode or "a" in self.mode or "+" in self.mode
+        return self.f.writable()
 
     def seekable(self):
         return True
 
     def seek(self, off, whence=0):
-        if whence == 0:
-            self.pos = off
-        elif whence == 1:
-            self.pos += off
-        else:
-            self.pos = len(self.disk.files[self.path]) + off
-        return self.pos
+        return self.f.seek(off, whence)
 
     def tell(self):
-        return self.pos
+        return self.f.tell()
 
-    def _limit(self, n):
+    def truncate(self, size=None):
+        return self.f.truncate(size)
+
+    def fileno(self):
+        return self.f.fileno()
+
+    def _limit(self, n, kind):
         p = self.plan
         if p and p.get("kind") in ("short", "short_read") and p.get("sizes"):
             k = p["sizes"][self.calls % len(p["sizes"])]
             if k >= 1 and k < n:
-                self.disk.fired("short_read" if self.readable() and not self.writable() else "short_write")
+                self.disk.fired(kind)
                 return k
         return n
 
@@ -71,23 +83,20 @@ class SimRawFile(io.RawIOBase):
             raise SimBudgetExceeded("raw write called %d times" % self.disk.raw_calls)
         b = bytes(b)
         n = len(b)
+        pos = self.f.tell()
         p = self.plan
         if p and p.get("kind") == "error" and p.get("where") == "write":
             at = p["at"]
-            if self.pos >= at:
+            if pos >= at:
                 self.disk.fired("write_error")
-                self.disk.trace.ev("raw_write_error", self.path, self.pos, p["errno"])
+                self.disk.trace.ev("raw_write_error", self.path, pos, p["errno"])
                 raise OSError(getattr(_errno, p["errno"]), "simulated " + p["errno"])
-            if self.pos + n > at:
-                n = at - self.pos  # torn: accept up to the fault offset, fail on the next call
-        n = self._limit(n)
-        data = self.disk.files[self.path]
-        if self.pos > len(data):
-            data.extend(b"\0" * (self.pos - len(data)))
-        data[self.pos : self.pos + n] = b[:n]
-        self.pos += n
+            if pos + n > at:
+                n = at - pos  # torn: accept up to the fault offset, fail on the next call
+        n = self._limit(n, "short_write")
+        self.f.write(b[:n])
         self.disk.bytes_written += n
-        self.disk.trace.ev("raw_write", self.path, self.pos - n, n)
+        self.disk.trace.ev("raw_write", self.path, pos, n)
         return n
 
     def readinto(self, buf):
@@ -95,27 +104,30 @@ class SimRawFile(io.RawIOBase):
         self.disk.raw_calls += 1
         if self.disk.raw_calls > RAW_CALL_CAP:
             raise SimBudgetExceeded("raw read called %d times" % self.disk.raw_calls)
-        data = self.disk.files[self.path]
-        n = min(len(buf), max(0, len(data) - self.pos))
-        if n > 0:
-            n = self._limit(n)
-        buf[:n] = data[self.pos : self.pos + n]
-        self.pos += n
+        pos = self.f.tell()
+        want = len(buf)
+        if want > 0:
+            want = self._limit(want, "short_read")
+        data = self.f.read(want)
+        n = len(data)
+        buf[:n] = data
         self.disk.bytes_read += n
-        self.disk.trace.ev("raw_read", self.path, self.pos - n, n)
+        self.disk.trace.ev("raw_read", self.path, pos, n)
         return n
 
     def close(self):
         # not traced: an unclosed handle is closed by the garbage collector at a
         # moment that depends on the allocation history of the process
         if not self.closed:
-            self.disk.open_handles.discard(id(self))
+            try:
+                self.f.close()
+            except Exception:
+                pass
         io.RawIOBase.close(self)
 
 
 class SimDisk(object):
     def __init__(self, trace, faults):
-        self.files = {}
         self.trace = trace
         self.faults = faults
         self.next_plan = None
@@ -123,11 +135,39 @@ class SimDisk(object):
         self.raw_calls = 0
         self.bytes_written = 0
         self.bytes_read = 0
-        self.open_handles = set()
         self.opens = []
+        self.root = tempfile.mkdtemp(prefix="mingus-simdisk-", dir=_sandbox_parent())
+        self.old_cwd = os.getcwd()
+        os.chdir(self.root)  # relative paths of the code under test land in the sandbox
+
+    # -- what the properties look at: the content of the real file ---------------
+    def real(self, path):
+        path = str(path)
+        return path if os.path.isabs(path) else os.path.join(self.root, path)
+
+    def exists(self, path):
+        return os.path.isfile(self.real(path))
+
+    def read_bytes(self, path):
+        try:
+            with io.FileIO(self.real(path), "r") as f:
+                return f.readall()
+        except OSError:
+            return b""
+
+    def write_bytes(self, path, data):
+        with io.FileIO(self.real(path), "w") as f:
+            f.write(bytes(data))
 
     def fired(self, kind):
         self.faults[kind] += 1
+
+    def cleanup(self):
+        try:
+            os.chdir(self.old_cwd)
+        except Exception:
+            pass
+        shutil.rmtree(self.root, ignore_errors=True)
 
     def open(self, file, mode="r", buffering=-1, *a, **kw):
         plan = self.next_plan
@@ -140,28 +180,15 @@ class SimDisk(object):
         path = str(file)
         if "b" not in mode:
             raise ValueError("SimDisk only serves binary files (mode %r)" % (mode,))
-        if "r" in mode and "+" not in mode:
-            if path not in self.files:
-                raise FileNotFoundError(_errno.ENOENT, "No such file", path)
-            raw = SimRawFile(self, path, mode, plan)
-            self.open_handles.add(id(raw))
-            if buffering == 0:
-                return raw
-            return io.BufferedReader(raw, self.bufsize if buffering in (-1, None) else buffering)
-        if "w" in mode:
-            self.files[path] = bytearray()
-        elif path not in self.files:
-            if "a" in mode:
-                self.files[path] = bytearray()
-            else:
-                raise FileNotFoundError(_errno.ENOENT, "No such file", path)
-        raw = SimRawFile(self, path, mode, plan)
-        self.open_handles.add(id(raw))
+        raw = SimRawFile(self, path, self.real(path), mode, plan)  # FileIO raises FileNotFoundError etc. like the real thing
+        size = self.bufsize if buffering in (-1, None) else buffering
         if buffering == 0:
             return raw
         if "+" in mode:
-            return io.BufferedRandom(raw, self.bufsize if buffering in (-1, None) else buffering)
-        return io.BufferedWriter(raw, self.bufsize if buffering in (-1, None) else buffering)
+            return io.BufferedRandom(raw, size)
+        if "r" in mode:
+            return io.BufferedReader(raw, size)
+        return io.BufferedWriter(raw, size)
 
 
 def install(disk, silence=True):
